@@ -177,15 +177,8 @@ func (r *Replica) evmChainID() *big.Int {
 func (r *Replica) ethMsg(ctx sdk.Context, signer int, to *common.Address, value *big.Int, data []byte, gas uint64, dynamic bool, nonceOff uint64) (*evmtypes.MsgEthereumTx, error) {
 	chain := r.evmChainID()
 	nonce := r.App.EvmKeeper.GetNonce(ctx, bhUserEth[signer]) + nonceOff
-	bf := r.baseFee(ctx)
 	args := &evmtypes.EvmTxArgs{ChainID: chain, Nonce: nonce, To: to, Amount: value, GasLimit: gas, Input: data}
-	if dynamic {
-		args.GasFeeCap = new(big.Int).Add(new(big.Int).Mul(bf, big.NewInt(2)), big.NewInt(1))
-		args.GasTipCap = big.NewInt(1)
-		args.Accesses = &ethtypes.AccessList{}
-	} else {
-		args.GasPrice = new(big.Int).Add(bf, big.NewInt(1))
-	}
+	r.ethPrices(ctx, args, dynamic)
 	msg := evmtypes.NewTx(args)
 	msg.From = bhUserEth[signer].Hex()
 	if err := msg.Sign(ethtypes.LatestSignerForChainID(chain), testtx.NewSigner(bhUserKey[signer])); err != nil {
